@@ -51,7 +51,7 @@ def check(ctx, src):
     fs = src.py("hy/models.py").func("FString.__new__")
     ctx.require(fs is not None, "FString.__new__ not found")
     mo_ = src.py("hy/models.py")
-    scope_fns = [fs] + [mo_.func(c.func.id) for c in pyq.calls(fs) if isinstance(c.func, ast.Name) and mo_.func(c.func.id) is not None]
+    scope_fns = pyq.helpers_of(mo_, fs)
     grp = [c for f_ in scope_fns for c in pyq.calls(f_) if (dotted(c.func) or "").split(".")[-1] == "groupby" and "isinstance(" in norm(c) and "String" in norm(c)]
     red = [c for f_ in scope_fns for c in pyq.calls(f_) if ((dotted(c.func) or "").split(".")[-1] == "reduce" and c.args and norm(c.args[0]) == "operator.add") or
            (isinstance(c.func, ast.Attribute) and c.func.attr == "join" and isinstance(c.func.value, ast.Constant))]
